@@ -121,9 +121,11 @@ def run_case(ck: Check, camp, case: dict) -> None:
     camp.hit("stream:clean" if clean else "stream:adversarial")
     camp.hit(f"formatters:{'default' if fm else 'off'}")
     camp.hit(f"input:{ift}")
-    with (PROBE.capture(case) if PROBE is not None else contextlib.nullcontext()):
+    with (PROBE.capture(case) if PROBE is not None else contextlib.nullcontext()) as observed:
         res = e2e.run_generate(shape.doc_text(doc), input_file_type=ift, model=model, opts=opts, formatters=fm, timeout=15, target=target,
                                modular=bool(opts.get("treat_dot_as_module")) or case.get("modular", False))
+        if observed is not None:
+            observed.files = res.files
     base = {"oracle": "terminates_and_parses", "kind": model, "stream": "clean" if clean else "adversarial"}
     if res.hang:
         ck.fail({**base, "mechanism": "hang"}, case, f"generate() did not return within 15 s")
@@ -140,13 +142,14 @@ def run_case(ck: Check, camp, case: dict) -> None:
                                       modular=bool(opts.get("treat_dot_as_module")) or case.get("modular", False))
                 if r2.ok:
                     trig = "collapse_root_models"
-            if trig == "other" and "empty_segment" in c01_refs.classify(doc):
+            tags = c01_refs.classify(doc) & {"empty_segment", "hash_segment"} if trig == "other" else set()
+            if tags:
                 # attribution for the recorded finding: the same document with the empty pointer segments removed does not
                 # end in RecursionError
                 r2 = e2e.run_generate(shape.doc_text(c01_refs.without_empty_segments(doc)), input_file_type=ift, model=model, opts=opts, formatters=fm,
                                       timeout=15, target=target, modular=bool(opts.get("treat_dot_as_module")) or case.get("modular", False))
                 if r2.error_type != "RecursionError" and not r2.hang:
-                    trig = "ref_pointer_empty_segment"
+                    trig = "ref_pointer_empty_segment" if "empty_segment" in tags else "ref_pointer_hash_segment"
             if not ck.fail({**base, "mechanism": "recursion_error", "trigger": trig}, case, f"RecursionError instead of a reported error: {res.error_msg}"):
                 case["_known_finding"] = True
         elif clean and not (fm and res.error_type in ("InvalidInput",)):
